@@ -244,7 +244,8 @@ def roundtrip_checks(tier):
     def V(case, label, detail, inputs=None):
         viol.append(dict(case=case, label=label, inputs=inputs or {}, detail=str(detail)[:1500], how='real save / reopen round trip'))
     try:
-        offsets = ['+10:00', '-03:30', '+05:30', '+00:00'] if tier == 'quick' else ['+10:00', '-03:30', '+05:30', '+00:00', '-11:00', '+12:45', '-00:30']
+        # '' = an epoch without any offset (xarray then writes a bare date / date-time)
+        offsets = ['+10:00', '-03:30', '+05:30', ''] if tier == 'quick' else ['+10:00', '-03:30', '+05:30', '+00:00', '', '-11:00', '+12:45', '-00:30']
         for k, off in enumerate(offsets):
             for conv in ('cf1d', 'shoc_standard', 'ugrid', 'cf2d'):
                 tname = 't' if conv == 'shoc_standard' else 'time'
@@ -260,7 +261,7 @@ def roundtrip_checks(tier):
                 else:
                     ds = builders.ugrid('tqp', fill='nan', data_vars={'eta': ((tdim, 'nface'), numpy.arange(6.0).reshape(2, 3))})
                 ds = ds.assign_coords({tname: ((tdim,), tvals)})
-                units = f'days since 1990-01-01T00:00:00{off}'
+                units = f'days since 1990-01-01T00:00:00{off}' if off else ('days since 1990-01-01' if k % 2 else 'days since 1990-01-01 00:00:00')
                 ds[tname].encoding.update(units=units, calendar='proleptic_gregorian', dtype='float64')
                 src = os.path.join(work, f'{conv}-{k}-src.nc')
                 ds.to_netcdf(src)
